@@ -165,6 +165,9 @@ func (jr *jpegReader) nextMarker() bool {
 			jr.marker = markerType(jr.buf[1])
 			return true
 		}
+		// a marker outside of any image (before the first SOI or after the
+		// EOI that closed the outermost image): skip it
+		jr.err = jr.discard(2)
 	}
 	return false
 }
